@@ -103,4 +103,38 @@ class C20(Prop):
             v.add_divergence(sig, list(feats), cnt, exs)
 
 
-PROPS = {"C20": C20(), "C19": C19(), "C17": C17(), "C18": C18()}
+class C01(Prop):
+    cmd = "c01"
+    cases = {"quick": 1500, "thorough": 25000}
+    rule = ("random workbooks (1-4 hostile sheet names; dense, sparse and grid-edge positions up to XFD1048576; text from a hostile "
+            "alphabet incl. XML specials, padding, CR/LF, non-BMP, escape look-alikes, 32767-char strings, duplicates; rich text; random-bit "
+            "f64, subnormals, 15-17 digit decimals; booleans; all 7 errors; formulas with cached results of every kind) saved with "
+            "both writers and reloaded; non-trivial = more than 4 dump entries; distinct by hash of the pre-save dump")
+    assumptions = ["oracle: the pre-save public-getter dump of the same workbook (kind, value text, f64 bits, formula, rich runs)",
+                   "characters XML 1.0 cannot carry are generated only in segregated workbooks (feature xml-illegal-chars)",
+                   "a formula cell is cleared before the formula is set (no formula with a rich-text result)"]
+
+
+class C05(Prop):
+    cmd = "c05"
+    cases = {"quick": 800, "thorough": 8000}
+    rule = ("1-400 styles per workbook from the product of font/fill/border/alignment/number-format/protection attributes, near-duplicate "
+            "families differing in one attribute and adjacent-field collision candidates, assigned to cells, rectangular ranges, rows and "
+            "columns (runs of equal columns, runs broken by one attribute); 3 save/load generations; distinct by hash of the pre-save dump")
+    assumptions = ["oracle: effective-style dump before save vs after reload (None components resolved to the workbook default)",
+                   "style-table sizes read from xl/styles.xml by a scanner that shares no code with the library; growth = gen3 > gen2 or gen2 > gen1+1"]
+
+
+class C06(Prop):
+    cmd = "c06"
+    cases = {"quick": 800, "thorough": 10000}
+    rule = ("1-6 sheets with hostile names, hidden/veryHidden, add/remove/rename before saving, active tab anywhere (also chosen before a "
+            "removal); per sheet 0-5 (1 in 5 workbooks: 0-40) merges, hyperlinks, comments, validations, conditional formats, defined "
+            "names, plus auto-filter, tab colour, panes, page setup, header/footer, protection; every payload carries a unique id; each "
+            "workbook is saved 3 times (hash-seed dependent pairing); distinct by hash of the pre-save dump")
+    assumptions = ["oracle: annotation dump before save vs after reload, keyed by cell / range / name",
+                   "hyperlink tooltip is not compared (the statement speaks of cell and target only; the library never persists it)",
+                   "defined names are compared as (scope, name) -> refers-to, whichever collection (workbook or sheet) holds them"]
+
+
+PROPS = {"C01": C01(), "C05": C05(), "C06": C06(), "C20": C20(), "C19": C19(), "C17": C17(), "C18": C18()}
